@@ -862,7 +862,7 @@ func TestC12(t *testing.T) {
 	r.Assume("harness quiescence (clients gone, every server-side conn closed by the server, hijack handlers returned, StateNew == StateClosed+StateHijacked) is polled with a 30 s cap whose firing is inconclusive; afterwards the counters get 10 s to settle (only the instructions between Close and Unregister/release remain)")
 	r.Assume("idle/partial/abort clients do not read, so a rejection sent to them is not observed (counted as conns_unobserved)")
 
-	n := r.N(800, 20000)
+	n := r.N(600, 20000)
 	const batchSize = 4
 	nb := (n + batchSize - 1) / batchSize
 	hits := map[string]int{}
